@@ -35,6 +35,8 @@ type vWSConn struct {
 	nWrite      int
 	ping        func(string) error
 	pong        func(string) error
+	blockWrites bool // WriteMessage blocks until the connection is closed (remote end not reading)
+	inWrite     bool
 }
 
 func vNewWSConn(script []vWSStep, hold bool) *vWSConn {
@@ -60,6 +62,11 @@ func (c *vWSConn) WriteControl(messageType int, data []byte, deadline time.Time)
 
 func (c *vWSConn) WriteMessage(messageType int, data []byte) error {
 	if c.closed {
+		return errors.New("closed")
+	}
+	if c.blockWrites {
+		c.inWrite = true
+		<-c.closedCh
 		return errors.New("closed")
 	}
 	c.nWrite++
@@ -302,4 +309,44 @@ func Harness_C15_WebsocketKeepAlive() {
 	p.Close()
 	vAssert("closed", conn.closed)
 	vAssert("no-goroutine-left", vGoroutinesSinceMark() <= 0)
+}
+
+// the websocket flavour of Harness_C07_RawsocketCloseWithBlockedWriter
+func Harness_C07_WebsocketCloseWithBlockedWriter() {
+	ser := &vSer{sizes: map[wamp.ID]int{1: 16, 2: 16}}
+	conn := vNewWSConn(nil, true)
+	conn.blockWrites = true
+	keep := time.Duration(0)
+	if vBool("keepalive-variant") {
+		keep = time.Hour
+	}
+	vGoroutineMark()
+	p := NewWebsocketPeer(conn, ser, 2, vNopLog{}, keep, 4)
+	n := vChoice("queued", 3)
+	for k := 1; k <= n; k++ {
+		p.Send() <- &wamp.Publish{Request: wamp.ID(k)}
+	}
+	vQuiesce()
+	if n > 0 {
+		vAssert("writer-is-stuck-in-write", conn.inWrite)
+	}
+	done := make(chan struct{})
+	go func() {
+		p.Close()
+		close(done)
+	}()
+	vQuiesce()
+	vAdvance(int64(10 * time.Second))
+	vQuiesce()
+	select {
+	case <-done:
+	default:
+		vAssert("close-returns-although-the-remote-end-does-not-read", false)
+		return
+	}
+	vAssert("connection-closed", conn.closed)
+	_, ok := <-p.Recv()
+	vAssert("recv-channel-closed", !ok)
+	vAssert("no-goroutine-left", vGoroutinesSinceMark() <= 0)
+	vCover("ws-blocked-writer-close-done")
 }
